@@ -194,7 +194,12 @@ func TestSim(t *testing.T) {
 				}
 				continue
 			}
-			sc := Generate(seed, GenOptions{Property: prop, Mode: mode})
+			var sc *Scenario
+			if role == "c19" && os.Getenv("SIM_FAMILY") == "twin" {
+				sc = TwinScenario(int(seed), mode)
+			} else {
+				sc = Generate(seed, GenOptions{Property: prop, Mode: mode})
+			}
 			progress(fmt.Sprintf("%s seed=%d mode=%s", role, seed, mode))
 			rep, err := RunScenario(t, sc, false)
 			if err != nil {
@@ -315,11 +320,18 @@ func TestSim(t *testing.T) {
 		}
 		finish()
 
+	case "twincount":
+		fmt.Println(TwinCount())
+
 	case "dump":
 		for seed := from; seed < to; seed++ {
 			prop := os.Getenv("SIM_PROPERTY")
 			if prop == "" {
 				prop = "C19"
+			}
+			if os.Getenv("SIM_FAMILY") == "twin" {
+				os.Stdout.Write(TwinScenario(int(seed), mode).Marshal())
+				continue
 			}
 			os.Stdout.Write(Generate(seed, GenOptions{Property: prop, Mode: mode}).Marshal())
 		}
